@@ -872,6 +872,24 @@ func (s *Sym) cond(v ssa.Value, ctx *symCtx, d int) *pcF {
 			}
 		}
 	}
+	// membership of an integer (a rune, an enumerated kind) in a read-only table literal: the set of its keys
+	if s.w != nil {
+		if keys, idx, ok := pcTableLookup(s.w, v); ok && isIntegerType(idx.Type()) {
+			var set ISet
+			all := true
+			for _, k := range keys {
+				iv, exact := constant.Int64Val(constant.ToInt(k))
+				if !exact {
+					all = false
+					break
+				}
+				set = set.union(isetOf(iv))
+			}
+			if all {
+				return s.intAtom(s.Key(idx, ctx), set, false, v, ctx)
+			}
+		}
+	}
 	return s.opaque(v, ctx)
 }
 
